@@ -93,9 +93,27 @@ class PolyAUsageStrategies(Enum):
 def open_indexed_fasta(reference, fai_file_name):
     # pyfaidx writes a missing index directly under its final name; a run killed meanwhile would leave an empty or
     # partial index that is newer than the reference and is trusted ever after (e.g. by --resume)
-    if not os.path.exists(fai_file_name) or os.path.getmtime(fai_file_name) < os.path.getmtime(reference):
+    def is_outdated(index_file_name):
+        return not os.path.exists(index_file_name) or os.path.getmtime(index_file_name) < os.path.getmtime(reference)
+
+    # a block-compressed reference has a second index (.gzi), which pyfaidx also writes in place next to the reference
+    # and without which it rebuilds the .fai in place: both are built aside, a run started meanwhile never sees a part
+    gzi_file_name = reference + ".gzi"
+    compressed = os.path.splitext(reference)[1].lower() in ['.gz', '.gzip', '.bgz']
+    if is_outdated(fai_file_name) or (compressed and is_outdated(gzi_file_name)):
         tmp_fai_file_name = "%s.%d.tmp" % (fai_file_name, os.getpid())
-        Fasta(reference, indexname=tmp_fai_file_name)
+        if compressed:
+            tmp_gzi_file_name = "%s.%d.tmp" % (gzi_file_name, os.getpid())
+            try:
+                Fasta(reference, indexname=tmp_fai_file_name, gzi_indexname=tmp_gzi_file_name)
+            except UnsupportedCompressionFormat:
+                for tmp_file_name in (tmp_fai_file_name, tmp_gzi_file_name):
+                    if os.path.exists(tmp_file_name):
+                        os.remove(tmp_file_name)
+                raise
+            os.replace(tmp_gzi_file_name, gzi_file_name)
+        else:
+            Fasta(reference, indexname=tmp_fai_file_name)
         os.replace(tmp_fai_file_name, fai_file_name)
     return Fasta(reference, indexname=fai_file_name)
 
